@@ -314,7 +314,7 @@ NoLast == [m |-> "none", w |-> FALSE, c |-> "none", u |-> << >>, resp |-> "err",
 Init == files = Fs0 /\ last = NoLast /\ n = 0
 
 Serve(r) ==
-  /\ LET out == Impl(Guard, files, r) IN
+  /\ \E out \in {Impl(Guard, files, r)} :      \* (bound once; a LET would be re-evaluated per use)
        /\ files' = out.fs
        /\ last' = [m |-> r.m, w |-> r.w, c |-> r.c, u |-> r.u,
                    resp |-> out.resp, eff |-> out.eff, chg |-> Changed(files, out.fs)]
